@@ -349,28 +349,60 @@ class ExecBase:
                 # alternatives partition the space, the others are impossible
                 feas = cand
             else:
-                last_unknown = False
-                for n, i in enumerate(cand):
-                    if n == len(cand) - 1 and not feas and not last_unknown:
+                M = st.model
+                models = {}
+                pending = []
+                for i in cand:
+                    if M is not None and z3.is_true(M.eval(cs[i], model_completion=True)):
+                        feas.append(i)
+                        models[i] = M
+                    else:
+                        pending.append(i)
+                for n, i in enumerate(pending):
+                    if not feas and n == len(pending) - 1:
                         feas.append(i)   # path condition is satisfiable, so the last one must be
                         break
-                    r, _ = self.check(cs[i])
+                    r, m = self.check(cs[i], st)
                     if r != 'unsat':
                         feas.append(i)
+                        models[i] = m
+                feas.sort()
+                if not feas:
+                    raise PathEnd('infeasible')
+                if len(feas) == 1:
+                    if models.get(feas[0]) is not None:
+                        st.model = models[feas[0]]
+                    st.decisions.append(feas[0])
+                    st.dpos += 1
+                    return feas[0]
+                raise NeedFork(feas, cs, models)
         if not feas:
             raise PathEnd('infeasible')
         if len(feas) == 1:
             st.decisions.append(feas[0])
             st.dpos += 1
             return feas[0]
-        raise NeedFork(feas, cs)
+        raise NeedFork(feas, cs, {i: st.model for i in feas})
+
+    def add_constraint(self, st, c):
+        """add an assumption to the path condition (solver and state)"""
+        self.solver.add(c)
+        st.pc.append(c)
+        if st.model is not None and not z3.is_true(st.model.eval(c, model_completion=True)):
+            st.model = None
 
     def branch(self, st, cond):
         """returns python bool for a possibly symbolic condition (forking)"""
         c = simp_bool(cond)
         if isinstance(c, bool):
             return c
-        return self.choose(st, [c, z3.Not(c)]) == 0
+        cid = c.get_id()
+        k = st.known.get(cid)
+        if k is not None:
+            return k[1]
+        r = self.choose(st, [c, z3.Not(c)]) == 0
+        st.pending_known.append((cid, c, r))
+        return r
 
     def concretize(self, st, v, bits, limit=64, what='value'):
         """case-split a symbolic integer over its feasible values (bounded)"""
